@@ -9,7 +9,7 @@ import traceback
 
 HERE = os.path.dirname(os.path.abspath(__file__))
 VERIF = os.path.dirname(HERE)
-EVIDENCE_DIR = os.path.join(VERIF, 'evidence')
+EVIDENCE_DIR = os.environ.get('OPTREE_VERIF_EVIDENCE') or os.path.join(VERIF, 'evidence')
 REPLAY_DIR = os.path.join(EVIDENCE_DIR, 'replay')
 KNOWN = os.path.join(VERIF, 'known_findings.json')
 
